@@ -386,6 +386,10 @@ func (fr *Frame) builtin(b *ssa.Builtin, cc *ssa.CallCommon, args []Val, resT ty
 		return Val{T: resT, Term: "0"}
 	case "clear":
 		c.unsupported("clear")
+	case "String", "StringData", "Slice", "SliceData", "Add":
+		// package unsafe: outside the verified subset, and the way parsed data could alias a buffer
+		fr.oblige("subset", "use of unsafe."+b.Name()+" "+c.eng.srcText(pos, "call"), reach, "false", pos)
+		return fr.havocVal(resT, "unsafe")
 	}
 	c.unsupported("builtin " + b.Name())
 	return fr.havocVal(resT, "builtin")
